@@ -177,14 +177,21 @@ def canon_sel(sel, mag):
 
 def compare(h, real_out, model_out, ordered_by_n):
     """first difference (index, key, message) or None.  Selections are compared canonically."""
+    prev = None          # (real selection, model selection) after the previous call
     for i, ((status, obs), m) in enumerate(zip(real_out, model_out)):
         if status != m["status"]:
             return (i, "status", f"real {status} vs model {m['status']}")
         if not obs.get("fitted"):
+            prev = None
             continue
         if obs["ns"] != m["ns"]:
             return (i, "n_sensors", f"real {obs['ns']!r} vs model {m['ns']!r}")
         mag = obs["mag"]
+        if status != "ok" and prev is not None and obs["sel"] == prev[0] and m["sel"] == prev[1]:
+            # a rejected call left both selections as they were: they were compared (canonically, under the aggregation
+            # method that produced them) after the call that made them – the magnitudes of THIS call's method do not apply
+            continue
+        prev = (obs["sel"], m["sel"])
         if len(obs["sel"]) != len(m["sel"]) or canon_sel(obs["sel"], mag) != canon_sel(m["sel"], mag):
             return (i, "selected", f"real {obs['sel']} vs model {m['sel']} (magnitudes {mag})")
         if ordered_by_n != "no-dispatch" and obs["kind"] != m["kind"]:
